@@ -32,6 +32,8 @@ type FileGenOpts struct {
 	PhasedMin, PhasedSpan int
 	// PhasedSlots bounds the number of slices that get the phased treatment (0: all of them).
 	PhasedSlots int
+	// PhasedGlobal, if set, restricts the phased treatment to slices of that message.
+	PhasedGlobal uint16
 	// OutOfDomain: also produce strings longer than the field and arrays longer than the profile length.
 	OutOfDomain bool
 	// LongStrings (values that cannot travel in full): one time in four has a sub-second part;
@@ -345,7 +347,7 @@ func GenFile(rng *Rand, o FileGenOpts) *fit.File {
 			continue
 		}
 		n := rng.Intn(max + 1)
-		if o.Phased && len(prof.ByMesg[s.Global]) >= 4 && (o.PhasedSlots == 0 || phasedDone < o.PhasedSlots) {
+		if o.Phased && len(prof.ByMesg[s.Global]) >= 4 && (o.PhasedSlots == 0 || phasedDone < o.PhasedSlots) && (o.PhasedGlobal == 0 || s.Global == o.PhasedGlobal) {
 			phasedDone++
 			n = 600 + rng.Intn(500)
 			if o.PhasedLong {
@@ -371,6 +373,18 @@ func GenFile(rng *Rand, o FileGenOpts) *fit.File {
 			}
 			if rng.Chance(2, 3) {
 				tailOnly = pick()
+			}
+			quiet := o.PhasedMin >= 60000
+			if quiet {
+				// a very long slice in which nothing new happens for a long time: all phases use
+				// the same two fields, and one other field shows up in the last messages only
+				fields = fields[:2]
+				headOnly = nil
+				for _, pf := range prof.ByMesg[s.Global][2:] {
+					if !(pf.Array && ref.BaseTypes[pf.Base].Code == 7) {
+						tailOnly = pf
+					}
+				}
 			}
 			for k := 0; k < n; k++ {
 				if left == 0 {
